@@ -449,7 +449,10 @@ func (r *syncRun) nodeCache(a *producer) {
 		if c.R.Intn(2) == 0 {
 			r.ncQueries(f, fmt.Sprintf("on the trunk at height %d", pos))
 		}
-		if r.ncDeliver(f, r.ncSeg(hist.paths[br], fork+1, len(hist.paths[br])), c.R.Intn(2) == 0) {
+		// the batch that makes the node switch must reach above its frontier; the rest of the branch follows in one or many batches
+		first := imin(len(hist.paths[br]), pos+1+c.R.Intn(6))
+		if r.ncDeliver(f, r.ncSeg(hist.paths[br], fork+1, first), true) &&
+			r.ncDeliver(f, r.ncSeg(hist.paths[br], first+1, len(hist.paths[br])), c.R.Intn(2) == 0) {
 			c.Hit("nc-switch")
 			r.ncQueries(f, fmt.Sprintf("after the switch from trunk height %d to branch %d (fork at %d)", pos, br, fork))
 			// and back to the trunk when it is the longer chain within the window
